@@ -98,6 +98,7 @@ class V3AgentState:
         self.auth_secret, self.priv_secret = bytes(auth_password), bytes(priv_password)
         self.auth_key_type, self.priv_key_type = auth_key_type, priv_key_type
         self.salt = 1
+        self.pad_style = "zero"      # DES padding content is the sender's choice: zero | count | ff | random
         self.auth_key = self.priv_key = b""
         if self.auth_alg:
             self.auth_key = usm.local_key(self.auth_alg, self.auth_secret, self.engine_id, auth_key_type)
@@ -129,7 +130,10 @@ class V3AgentState:
         if self.priv_alg == PRIV_DES:
             salt = (boots & 0xFFFFFFFF).to_bytes(4, "big") + (self.salt & 0xFFFFFFFF).to_bytes(4, "big")
             key, iv = usm.des_params(self.priv_key, salt)
-            return ossl.des_cbc_encrypt(key, iv, plaintext + bytes(-len(plaintext) % 8)), salt
+            n = -len(plaintext) % 8
+            pad = {"zero": bytes(n), "count": bytes([n]) * n, "ff": b"\xff" * n,
+                   "random": bytes((17 * i + 91) % 251 + 1 for i in range(n))}[self.pad_style]
+            return ossl.des_cbc_encrypt(key, iv, plaintext + pad), salt
         salt = self.salt.to_bytes(8, "big")
         return ossl.aes128_cfb_encrypt(self.priv_key, usm.aes_iv(boots, time, salt), plaintext), salt
 
